@@ -170,8 +170,20 @@ fn max_id(m: &dr::Module) -> u32 {
 /// One random complete Builder history; returns the finished module and a textual log.
 pub fn history(rng: &mut Rng, r: &mut Report, rp: &dyn Fn() -> Json, cover: usize) -> Option<(dr::Module, Vec<String>, Option<(u8, u8)>)> {
     let sems = method_sems();
-    let mut b = Builder::new();
     let mut log: Vec<String> = vec![];
+    // one history in three continues a module whose id bound lies just below a boundary value (powers of
+    // two, powers of ten, 0x400000), so that the builder's consecutive ids cross it
+    let mut b = if rng.chance(1, 3) {
+        let mut bounds: Vec<u32> = (8..32).map(|k| 1u32 << k).collect();
+        bounds.extend([100, 1000, 10_000, 100_000, 1_000_000, 0x40_0000]);
+        let start = rng.pick(&bounds).saturating_sub(rng.below(20) as u32).max(1);
+        let mut m = dr::Module::new();
+        m.header = Some(dr::ModuleHeader::new(start));
+        log.push(format!("new_from_module(bound {})", start));
+        Builder::new_from_module(m)
+    } else {
+        Builder::new()
+    };
     let version = if rng.chance(1, 2) {
         let v = (rng.below(256) as u8, rng.below(256) as u8);
         b.set_version(v.0, v.1);
@@ -188,6 +200,15 @@ pub fn history(rng: &mut Rng, r: &mut Report, rp: &dyn Fn() -> Json, cover: usiz
     let t64 = [b.type_int(64, 0), b.type_float(64, None)];
     ctx.types32 = t32.to_vec();
     ctx.types64 = t64.to_vec();
+    // every history holds typed literals of both widths (they depend on the ids of their types)
+    for t in t64.iter() {
+        let v = ((rng.word() as u64) << 32) | rng.word() as u64;
+        let c = if rng.chance(1, 2) { b.constant_bit64(*t, v) } else { b.spec_constant_bit64(*t, v) };
+        pool.push(c);
+    }
+    let c32 = b.constant_bit32(t32[rng.below(t32.len())], rng.word());
+    pool.push(c32);
+    log.push("type_int/type_float x7; constant_bit64 x2; constant_bit32".into());
     let by_class = |c: MClass| -> Vec<&MethodSem> { sems.iter().filter(|m| m.class == c && method(m.idx).call.is_some()).collect() };
     let globals: Vec<&MethodSem> = by_class(MClass::Global).into_iter().chain(by_class(MClass::Type)).filter(|m| m.name != "type_struct_continued_intel" && m.name != "type_struct_continued_intel_id").collect();
     let blocks = by_class(MClass::BlockInst);
@@ -206,6 +227,7 @@ pub fn history(rng: &mut Rng, r: &mut Report, rp: &dyn Fn() -> Json, cover: usiz
         if let (Some(f), Some(bl)) = (b.selected_function(), b.selected_block()) {
             ctx.block_len = b.module_ref().functions[f].blocks[bl].instructions.len();
         }
+        let count_before = b.module_ref().all_inst_iter().count();
         let mut args = RandArgs::new(rng, &mut marker, ctx, sem.name);
         let out = match catch(|| call(b, &mut args)) {
             Ok(o) => o,
@@ -214,7 +236,38 @@ pub fn history(rng: &mut Rng, r: &mut Report, rp: &dyn Fn() -> Json, cover: usiz
                 return false;
             }
         };
-        log.push(format!("{}({}){}", sem.name, show_trace(&args.trace), out.err_name().map(|e| format!(" -> Err({})", e)).unwrap_or_default()));
+        let trace = args.trace.clone();
+        log.push(format!("{}({}){}", sem.name, show_trace(&trace), out.err_name().map(|e| format!(" -> Err({})", e)).unwrap_or_default()));
+        // every successful emitting call adds exactly one instruction (implicit type requests: one or none)
+        let added = b.module_ref().all_inst_iter().count() as i64 - count_before as i64;
+        // (the memory model is a single slot: a second memory_model call replaces the first)
+        let ok_added = if sem.class == MClass::Type || sem.name == "memory_model" { added == 0 || added == 1 } else { added == 1 };
+        if !out.is_err() && sem.opname.is_some() && !ok_added {
+            r.violation(format!("C06:emitted-count-in-history:{}", sem.name), format!("Builder::{} added {} instruction(s)\nhistory: {}", sem.name, added, log.join("; ")), rp());
+            return false;
+        }
+        // sometimes the very same call is made again with identical arguments: it must emit again
+        if !out.is_err() && sem.class != MClass::TerminatorFile && sem.class != MClass::Type && sem.opname.is_some() && rng.chance(1, 10) && !trace.iter().any(|a| a.name == "result_id" && matches!(a.v, crate::bmodel::ArgV::OptWord(Some(_)))) {
+            let before2 = b.module_ref().all_inst_iter().count();
+            let mut again = crate::bmodel::ReplayArgs::new(&trace);
+            match catch(|| call(b, &mut again)) {
+                Ok(o2) => {
+                    log.push(format!("{}(same arguments again)", sem.name));
+                    if let Some(w) = o2.word() {
+                        pool.push(w);
+                    }
+                    let added2 = b.module_ref().all_inst_iter().count() as i64 - before2 as i64;
+                    if !o2.is_err() && again.ok && added2 != 1 && sem.name != "memory_model" {
+                        r.violation(format!("C06:repeated-call-emits:{}", sem.name), format!("Builder::{} called twice in succession with identical arguments added {} instruction(s) the second time\nhistory: {}", sem.name, added2, log.join("; ")), rp());
+                        return false;
+                    }
+                }
+                Err(p) => {
+                    r.violation(format!("C06:panic:{}", sem.name), format!("repeated Builder::{} panicked: {}", sem.name, p.msg), rp());
+                    return false;
+                }
+            }
+        }
         if let Some(w) = out.word() {
             pool.push(w);
         }
